@@ -14,7 +14,7 @@ open VaxisModel.Model.Emu VaxisModel.Model.EmuBody VaxisModel.Lemmas.Emu VaxisMo
 /-- only replies, empty statements and branches between them -/
 def replyOnly : Stmt → Bool
   | .skip => true
-  | .reply => true
+  | .reply _ => true
   | .seq a b => replyOnly a && replyOnly b
   | .ite _ t f => replyOnly t && replyOnly f
   | _ => false
@@ -22,7 +22,7 @@ def replyOnly : Stmt → Bool
 theorem replyOnly_eval (pm : List Param) (st : Stmt) : ∀ (s : Frame), replyOnly st = true → evalS pm st s = .ok (s, .norm) := by
   induction st with
   | skip => intro s _; simp [evalS]
-  | reply => intro s _; simp [evalS]
+  | reply r => intro s _; simp [evalS]
   | seq a b iha ihb =>
     intro s h
     simp only [replyOnly, Bool.and_eq_true] at h
